@@ -10,6 +10,11 @@ static void op_set_d(int argc, char **argv)
 { (void)argc; mpz_t z; mpz_init(z); mpz_realloc2(z, 1); mpz_set_d(z, bits_to_double(arg_ul(argv[1]))); out_z(z); mpz_clear(z); }
 static void op_get_d(int argc, char **argv)
 { (void)argc; mpz_t z; parse_z(argv[1], z); outul(double_to_bits(mpz_get_d(z))); mpz_clear(z); }
+/* mpn_get_d X sign exp : {limbs of |X|} * 2^exp truncated to a double, negative if sign < 0 (the internal routine behind every
+   conversion to double, with the exponent a caller may pass) */
+static void op_mpn_get_d(int argc, char **argv)
+{ (void)argc; mpz_t z; parse_z(argv[1], z); long sign = arg_l(argv[2]), e = arg_l(argv[3]);
+  outul(double_to_bits(mpn_get_d(PTR(z), ABSIZ(z), (mp_size_t) sign, e))); mpz_clear(z); }
 static void op_get_d_2exp(int argc, char **argv)
 { (void)argc; mpz_t z; parse_z(argv[1], z); mpir_si e; double d = mpz_get_d_2exp(&e, z); outul(double_to_bits(d)); outl(e); mpz_clear(z); }
 static void op_cmp_d(int argc, char **argv)
@@ -42,7 +47,7 @@ static void op_set_si(int argc, char **argv)
   out_z(a); out_z(b); out_z(c); mpz_clear(a); mpz_clear(b); mpz_clear(c); }
 
 const op_t ops_conv[] = {
-  {"mpz_set_d", op_set_d}, {"mpz_get_d", op_get_d}, {"mpz_get_d_2exp", op_get_d_2exp}, {"mpz_cmp_d", op_cmp_d}, {"mpz_cmpabs_d", op_cmpabs_d},
+  {"mpz_set_d", op_set_d}, {"mpz_get_d", op_get_d}, {"mpn_get_d", op_mpn_get_d}, {"mpz_get_d_2exp", op_get_d_2exp}, {"mpz_cmp_d", op_cmp_d}, {"mpz_cmpabs_d", op_cmpabs_d},
   {"mpz_cmp", op_cmp}, {"mpz_cmp_ui", op_cmp_ui}, {"mpz_cmp_si", op_cmp_si}, {"mpz_get", op_get}, {"mpz_fits", op_fits},
   {"mpz_set_ui", op_set_ui}, {"mpz_set_si", op_set_si},
   {NULL, NULL}
